@@ -205,6 +205,16 @@ example : (MacroLabels.scrapedLabels "m" [.value (.tuple ["mean", "m.c0"])]).toO
     MacroLabels.stripWild "m" "mean" = "an" ∧
     (MacroLabels.scrapedLabels "m" [.value (.single "m.c1.outputs.o")]).toOption = none := by decide
 
+/-- `    return ε_applied, total`: the ast reports the elements at BYTE columns 11–21 and 23–28 (`ε` is two
+bytes). Cut as bytes the texts are the returned names; the same numbers used as character positions give
+`ε_applied,` and `otal` -/
+theorem C09_label_slice_utf8_witness :
+    String.ofList (MacroLabels.cutBytes "    return ε_applied, total".toList 0 11 21) = "ε_applied" ∧
+    String.ofList (MacroLabels.cutBytes "    return ε_applied, total".toList 0 23 28) = "total" ∧
+    String.ofList (MacroLabels.cutChars "    return ε_applied, total".toList 11 21) = "ε_applied," ∧
+    String.ofList (MacroLabels.cutChars "    return ε_applied, total".toList 23 28) = "otal" := by
+  decide
+
 /-! ## (b) by-value synchronisation -/
 
 /-- after construction, after every assignment to a macro input, after every run and after every
@@ -574,6 +584,7 @@ end PwVerif.C09
 #print axioms PwVerif.C09.C09_hint_chain_is_C04
 #print axioms PwVerif.C09.C09_wired_start_once
 #print axioms PwVerif.C09.C09_wired_anyOf_witness
+#print axioms PwVerif.C09.C09_label_slice_utf8_witness
 #print axioms PwVerif.C09.C09_scraped_label_rule
 #print axioms PwVerif.C09.C09_macro_eq_inlined
 #print axioms PwVerif.C09.C09_by_value_rerun
